@@ -39,6 +39,10 @@ pub enum C18Case {
     History { threads: u8, streams: Vec<(u8, u8, u8)>, use_them: bool },
     /// set-up table entry
     Setup { elem: ElemKind, size: usize },
+    /// elements of a page and more: [u8; 4096 << big] x `pages` pages; those that do not
+    /// divide the size must be refused (some divide 2*size - the length of the double
+    /// mapping - but not size)
+    SetupBig { big: u8, pages: u8 },
     /// aliasing of the two halves: every byte offset
     Alias { pages: u8, shift: u16 },
 }
@@ -112,6 +116,11 @@ impl Prop for C18 {
                 v.push(C18Case::Setup { elem, size });
             }
         }
+        for big in 0..5u8 {
+            for pages in 1..=12u8 {
+                v.push(C18Case::SetupBig { big, pages });
+            }
+        }
         for pages in 1..=4u8 {
             for shift in [0u16, 1, 2, 4095, 4096, 32768, 65535] {
                 v.push(C18Case::Alias { pages, shift });
@@ -122,12 +131,14 @@ impl Prop for C18 {
     fn exhaustive_subdomains(&self) -> Vec<String> {
         vec![
             "set-up table: 10 element kinds (incl. 3- and 12-byte and zero-sized) x 26 sizes (5 page multiples, 6 invalid, 15 huge page multiples from 2^31 to 2^63-4096 where the kernel may refuse at ftruncate or mmap)".into(),
+            "big elements: [u8; N] for N = 1, 2, 3, 4, 6 pages x 1-12 pages of buffer (dividing ones are used across the wrap, the others must be refused)".into(),
             "aliasing: every byte offset of 1-4 page buffers, write positions 0, 1, 2, cap/16, cap/2, cap-1".into(),
         ]
     }
     fn run(&self, case: &C18Case, ctx: &mut Ctx) {
         match case {
             C18Case::Setup { elem, size } => run_setup(*elem, *size, ctx),
+            C18Case::SetupBig { big, pages } => run_setup_big(*big, *pages, ctx),
             C18Case::Alias { pages, shift } => run_alias(*pages, *shift, ctx),
             C18Case::History { threads, streams, use_them } => run_history(*threads, streams, *use_them, ctx),
         }
@@ -249,6 +260,83 @@ fn try_new(elem: ElemKind, size: usize) -> Result<Result<(), String>, crate::eng
         ElemKind::B3 => t!([u8; 3]),
         ElemKind::B12 => t!([u8; 12]),
         ElemKind::Zst => t!(()),
+    }
+}
+
+/// Elements of 1, 2, 3 (12 KiB), 4 and 6 pages.  A valid buffer is also used: fill, drain
+/// all but one element, write across the wrap, read back.
+fn run_setup_big(big: u8, pages: u8, ctx: &mut Ctx) {
+    ctx.class("setup-big-elements");
+    ctx.nontrivial();
+    let size = pages.max(1) as usize * 4096;
+    fn go<const N: usize>(size: usize) -> Result<Option<String>, String> {
+        let b = Arc::new(Buffer::<[u8; N]>::new(size).map_err(|e| format!("{e}"))?);
+        if size % N != 0 {
+            return Ok(Some("accepted".to_string()));
+        }
+        let cap = size / N;
+        let mk = |k: usize| {
+            let mut e = [0u8; N];
+            for (i, x) in e.iter_mut().enumerate() {
+                *x = (k * 31 + i * 7 + (i >> 8)) as u8;
+            }
+            e
+        };
+        let mut next = 0usize;
+        let mut expect = std::collections::VecDeque::new();
+        // fill, then repeatedly read all but one and refill: every element slot is crossed
+        for round in 0..(2 * cap + 3) {
+            {
+                let mut w = b.clone().write_buf().map_err(|e| format!("{e}"))?;
+                let n = w.len();
+                for i in 0..n {
+                    w.slice()[i] = mk(next);
+                    expect.push_back(next);
+                    next += 1;
+                }
+                w.produce(n, &[]);
+            }
+            let (r, _) = b.clone().read_buf().map_err(|e| format!("{e}"))?;
+            let have = r.len();
+            if have != expect.len() {
+                return Ok(Some(format!("round {round}: {have} elements readable, {} committed", expect.len())));
+            }
+            let take = if round % 2 == 0 { have.saturating_sub(1).max(1).min(have) } else { have };
+            for i in 0..take {
+                let want = mk(expect.pop_front().unwrap());
+                if r.slice()[i] != want {
+                    return Ok(Some(format!("round {round}: element {i} of the read window differs from what was committed")));
+                }
+            }
+            r.consume(take);
+        }
+        Ok(None)
+    }
+    let n = [4096usize, 8192, 12288, 16384, 24576][(big % 5) as usize];
+    let valid = size % n == 0;
+    let base = (deleted_mappings(), open_fds());
+    let r = catch(|| match big % 5 {
+        0 => go::<4096>(size),
+        1 => go::<8192>(size),
+        2 => go::<12288>(size),
+        3 => go::<16384>(size),
+        _ => go::<24576>(size),
+    });
+    let after = (deleted_mappings(), open_fds());
+    let what = format!("Buffer::<[u8; {n}]>::new({size})");
+    match r {
+        Err(pi) => ctx.fail(format!("C18/setup/panic/{}", crate::engine::loc_file(&pi.loc)), format!("{what}: panic at {}: {}", pi.loc, pi.msg)),
+        Ok(Err(e)) if valid => ctx.fail("C18/setup/refused-valid".to_string(), format!("{what} failed: {e}")),
+        Ok(Err(_)) => {}
+        Ok(Ok(Some(m))) if m == "accepted" => ctx.fail(
+            "C18/setup/accepted-invalid/nondividing".to_string(),
+            format!("{what} succeeded although the element size does not divide the buffer size (it divides the doubled mapping: {})", (2 * size) % n == 0),
+        ),
+        Ok(Ok(Some(m))) => ctx.fail("C18/setup/big-element-data".to_string(), format!("{what}: {m}")),
+        Ok(Ok(None)) => {}
+    }
+    if after != base {
+        ctx.fail("C18/setup/leak".to_string(), format!("{what} (dropped again): deleted-file mappings {} -> {}, fds {} -> {}", base.0, after.0, base.1, after.1));
     }
 }
 
